@@ -33,10 +33,10 @@ TOLERANCES = {"law_rel": 1e-10, "path_rel": 1e-10, "readback_rel": 1e-12}
 EXHAUSTIVE = {"quick": False, "thorough": True}
 EXHAUSTIVE_PART = "thorough: every (2-D shape class x material class) pair at least 3 paths; quick: every pair once"
 FLOORS = {"quick": {"law.area": 400, "law.ndens": 400, "law.dims": 400, "law.path": 400, "law.link": 100, "law.hotset": 200, "law.fluid": 20, "law.path-through-zero-celsius": 100, "hook:Component.setTemperature": 1000,
-                    "law.area/unshapedcomponent": 20, "law.asked-at-another-temperature": 1000, "law.asked-at-another-temperature/helix": 60, "law.expanding-set": 400, "law.hotset-count": 200, "law.link/circle": 100, "law.link/hexagon": 100,
+                    "law.area/unshapedcomponent": 20, "law.twin-holding-the-same-vector-untouched": 1000, "law.asked-at-another-temperature": 1000, "law.asked-at-another-temperature/helix": 60, "law.expanding-set": 400, "law.hotset-count": 200, "law.link/circle": 100, "law.link/hexagon": 100,
                     "law.link/rectangle": 100, "law.link-write": 60, "law.link-replace": 60, "law.link-unlinked-follow": 60},
           "thorough": {"law.area": 4000, "law.ndens": 4000, "law.dims": 4000, "law.path": 4000, "law.link": 1000, "law.hotset": 2000, "law.fluid": 200, "law.path-through-zero-celsius": 1000, "hook:Component.setTemperature": 10000,
-                       "law.area/unshapedcomponent": 200, "law.asked-at-another-temperature": 10000, "law.asked-at-another-temperature/helix": 600, "law.expanding-set": 4000, "law.hotset-count": 2000, "law.link/circle": 1000, "law.link/hexagon": 1000,
+                       "law.area/unshapedcomponent": 200, "law.twin-holding-the-same-vector-untouched": 10000, "law.asked-at-another-temperature": 10000, "law.asked-at-another-temperature/helix": 600, "law.expanding-set": 4000, "law.hotset-count": 2000, "law.link/circle": 1000, "law.link/hexagon": 1000,
                        "law.link/rectangle": 1000, "law.link-write": 600, "law.link-replace": 600, "law.link-unlinked-follow": 600}}
 ASSUMPTIONS = [
     "the linear expansion factor between two temperatures is (100+p(T1))/(100+p(T0)) with p the material's own linearExpansionPercent, evaluated by the harness "
@@ -280,9 +280,21 @@ def one_component(rec, rng, sname, scls, mcls, matmod, custom):
             rec.violation("area/not-cold-area-times-square-of-factor/%s" % sname, "%s/%s area at %g C = %r, cold area %r x f^2 %r = %r" % (sname, mname, Thot, A0, Acold0, f0 ** 2, Acold0 * f0 ** 2), w)
         nontrivial = False
         Tprev, pprev = Thot, p0
+        # a twin component that was handed the same composition vector (p.numberDensities assigned directly, copyParamsFrom): it stays
+        # at its own temperature, so heating the first one must not touch its densities
+        twin = scls("twin", mname, Tin, Thot, **dims)
+        if rng.random() < .5:
+            twin.p.numberDensities = c.p.numberDensities
+        else:
+            twin.copyParamsFrom(c)
+        twin0 = dict(twin.p.numberDensities)
         for T in path:
             nlog = len(LOG)
             c.setTemperature(T)
+            rec.hit("law.twin-holding-the-same-vector-untouched")
+            if dict(twin.p.numberDensities) != twin0 and nontrivial is not None:
+                rec.violation("aliasing/heating-one-component-changed-its-twin", "%s/%s: setTemperature(%g) on one component changed the number densities of a twin that was given the same vector" % (sname, mname, T), w)
+                twin0 = dict(twin.p.numberDensities)
             pT = pct(mat, T)
             if pT != pprev:
                 nontrivial = True
